@@ -3052,6 +3052,13 @@ func (vc *ValCount) smaller(other ValCount) ValCount {
 	if vc.Count == 0 || (other.Val < vc.Val && other.Count > 0) {
 		return other
 	}
+	if other.Val == vc.Val && other.Count > 0 {
+		// Both sides hold the same value: the count is the total number of columns holding it.
+		return ValCount{
+			Val:   vc.Val,
+			Count: vc.Count + other.Count,
+		}
+	}
 	return ValCount{
 		Val:   vc.Val,
 		Count: vc.Count,
@@ -3062,6 +3069,13 @@ func (vc *ValCount) smaller(other ValCount) ValCount {
 func (vc *ValCount) larger(other ValCount) ValCount {
 	if vc.Count == 0 || (other.Val > vc.Val && other.Count > 0) {
 		return other
+	}
+	if other.Val == vc.Val && other.Count > 0 {
+		// Both sides hold the same value: the count is the total number of columns holding it.
+		return ValCount{
+			Val:   vc.Val,
+			Count: vc.Count + other.Count,
+		}
 	}
 	return ValCount{
 		Val:   vc.Val,
